@@ -105,6 +105,9 @@ class AlgWorld:
             ("BioConsert([BordaCount(), PickAPerm()])", n("BioConsert", starting_algorithms=[n("BordaCount"), n("PickAPerm")]), "borda&pick"),
             ("BioConsert([CopelandMethod(), KwikSortRandom()])", n("BioConsert", starting_algorithms=[n("CopelandMethod"), n("KwikSortRandom")]), "any"),
             ("BioConsert([BioCo()])", n("BioConsert", starting_algorithms=[n("BioCo")]), "borda"),
+            ("BioConsert([BordaCount(), CopelandMethod()])", n("BioConsert", starting_algorithms=[n("BordaCount"), n("CopelandMethod")]), "borda"),
+            ("BioConsert([PickAPerm(), BordaCount(), KwikSortRandom()])", n("BioConsert", starting_algorithms=[n("PickAPerm"), n("BordaCount"), n("KwikSortRandom")]), "borda&pick"),
+            ("ParCons(auxiliary_algorithm=BioConsert([PickAPerm(), CopelandMethod()]))", n("ParCons", auxiliary_algorithm=n("BioConsert", starting_algorithms=[n("PickAPerm"), n("CopelandMethod")])), "pick"),
             ("ParCons()", n("ParCons"), "any"),
             ("ParCons(auxiliary_algorithm=BordaCount())", n("ParCons", auxiliary_algorithm=n("BordaCount")), "borda"),
             ("ParCons(auxiliary_algorithm=BioCo(), bound_for_exact=0)", n("ParCons", auxiliary_algorithm=n("BioCo"), bound_for_exact=0), "borda"),
@@ -225,6 +228,8 @@ def _check_guards(res: Result, proj: Project, aw: AlgWorld, schemes):
         ("BordaCount()", n("BordaCount")), ("PickAPerm()", n("PickAPerm")), ("BioCo()", n("BioCo")),
         ("BioConsert([BordaCount(), PickAPerm()])", n("BioConsert", starting_algorithms=[n("BordaCount"), n("PickAPerm")])),
         ("BioConsert([PickAPerm()])", n("BioConsert", starting_algorithms=[n("PickAPerm")])),
+        ("BioConsert([BordaCount(), CopelandMethod()])", n("BioConsert", starting_algorithms=[n("BordaCount"), n("CopelandMethod")])),
+        ("BioConsert([PickAPerm(), KwikSortRandom()])", n("BioConsert", starting_algorithms=[n("PickAPerm"), n("KwikSortRandom")])),
         ("ParCons(auxiliary_algorithm=BordaCount())", None),
     ]
     allowed = {"ScoringSchemeNotHandledException", "InompleteRankingsIncompatibleWithScoringSchemeException"}
